@@ -25,7 +25,7 @@ def main() -> int:
                         item["seed"], work, tmp, steps=item.get("steps", 40), mix=item.get("mix"),
                         with_route=item.get("with_route", True), with_index=item.get("with_index", False),
                         world_kwargs=item.get("world_kwargs"), kinds=item.get("kinds"), p_instr=item.get("p_instr"),
-                        throttle=bool(item.get("throttle")), cosim=item.get("cosim"),
+                        throttle=bool(item.get("throttle")), cosim=item.get("cosim"), resubmit=bool(item.get("resubmit")),
                     )
                     meta["runs"].append({"id": item["id"], "kind": "adv", "seed": item["seed"], "lines": tr.n,
                                          "vehicles": len(w["vehicles"]), "requests": len(w["requests"]),
